@@ -30,6 +30,7 @@ def opts(tier):
     o.max_channels = 4
     o.many_segments_p = 0.005
     o.short_last_p = 0.04
+    o.declared_huge_p = 0.01
     o.equal_shapes_p = 0.15
     return gen.deepen(o, tier)
 
